@@ -189,6 +189,80 @@ func init() {
 	})
 }
 
+// c15LockCreateErrorIgnored: in (*Pipestance).Lock, when the exclusive create of the lock file
+// fails with an error OTHER than "exists", the function logs the error and goes on (registers the
+// signal handler, writes the file non-exclusively, returns nil) instead of returning the error.
+// Pattern: the `if f, err := os.OpenFile(...); err == nil { } else if os.IsExist(err) { } else { }`
+// chain; `false` iff its final else block contains a return statement whose result is not the
+// identifier nil; `true` when there is no final else or it does not return an error.
+func init() {
+	addFact(fact{
+		name:   "c15LockCreateErrorIgnored",
+		leanTy: "Bool",
+		deflt:  "true",
+		extract: func(repo string) (string, interface{}, error) {
+			_, f, err := parseFile(repo, "martian/core/pipestance.go")
+			if err != nil {
+				return "", nil, err
+			}
+			fd := findMethod(f, "Pipestance", "Lock")
+			if fd == nil || fd.Body == nil {
+				return "", nil, fmt.Errorf("(*Pipestance).Lock not found")
+			}
+			isOpenFile := func(st ast.Stmt) bool {
+				as, ok := st.(*ast.AssignStmt)
+				if !ok || len(as.Rhs) != 1 {
+					return false
+				}
+				ce, ok := as.Rhs[0].(*ast.CallExpr)
+				if !ok {
+					return false
+				}
+				sel, ok := ce.Fun.(*ast.SelectorExpr)
+				return ok && sel.Sel.Name == "OpenFile"
+			}
+			for _, st := range fd.Body.List {
+				is, ok := st.(*ast.IfStmt)
+				if !ok || is.Init == nil || !isOpenFile(is.Init) {
+					continue
+				}
+				// walk to the end of the else-if chain
+				depth := 0
+				cur := is
+				for {
+					next, ok := cur.Else.(*ast.IfStmt)
+					if !ok {
+						break
+					}
+					cur = next
+					depth++
+				}
+				js := map[string]interface{}{"else_if_branches": depth}
+				blk, ok := cur.Else.(*ast.BlockStmt)
+				if !ok {
+					js["final_else"] = false
+					return "true", js, nil
+				}
+				returnsErr := false
+				for _, x := range blk.List {
+					if rs, ok := x.(*ast.ReturnStmt); ok && len(rs.Results) == 1 {
+						if id, ok := rs.Results[0].(*ast.Ident); !ok || id.Name != "nil" {
+							returnsErr = true
+						}
+					}
+				}
+				js["final_else"] = true
+				js["final_else_returns_error"] = returnsErr
+				if returnsErr {
+					return "false", js, nil
+				}
+				return "true", js, nil
+			}
+			return "", nil, fmt.Errorf("the os.OpenFile if-chain was not found in (*Pipestance).Lock")
+		},
+	})
+}
+
 // c15StructsCompared: (*Ast).EquivalentCall (martian/syntax/equivalence.go) runs,
 // after the call comparison, the second pass `structComparer{...}.call(...)`
 // which compares the DEFINITIONS of the struct types used by the compared
@@ -270,9 +344,11 @@ func init() {
 // branch right after the call of `instantiatePipeline` — where a start arrives that lost the
 // race for the lock (PipestanceLockedError) or failed even earlier (parse / compile / call-graph
 // error) — removes the pipestance directory although this call does not own it.  `false` only
-// when every `os.RemoveAll` of that branch sits under a condition `<p> != nil`, `<p>` being the
-// pipestance returned by instantiatePipeline (non-nil exactly when this call took the lock);
-// `true` when an `os.RemoveAll` is unconditional or guarded by anything else.
+// when every `os.RemoveAll` / `os.Remove` of that branch sits under a condition `<p> != nil`,
+// `<p>` being the pipestance returned by instantiatePipeline (non-nil exactly when this call took
+// the lock); `true` when one is unconditional, guarded by anything else, or in an else branch
+// (removing even the still-empty folder makes a concurrent starter's lock-file create fail with
+// ENOENT, which Lock() logs and ignores).
 func init() {
 	addFact(fact{
 		name:   "c15RefusedStartRemovesDir",
@@ -297,7 +373,7 @@ func init() {
 					return false
 				}
 				sel, ok := ce.Fun.(*ast.SelectorExpr)
-				return ok && sel.Sel.Name == "RemoveAll"
+				return ok && (sel.Sel.Name == "RemoveAll" || sel.Sel.Name == "Remove")
 			}
 			for i, st := range fd.Body.List {
 				as, ok := st.(*ast.AssignStmt)
